@@ -35,11 +35,13 @@ var c17Ops = []string{
 	// the exported Validate on a decoded Response that several callers hold (one ACS offering a message to
 	// each configured SP in turn): acceptable / refused
 	"Validate(decoded)", "Validate(decoded,refused)",
+	// an unsigned Response whose only assertion is signed and travels encrypted (the SP decrypts into the tree)
+	"RetrieveAssertionInfo(encrypted-assertion-signed)",
 }
 
 // operations whose results do not depend on the time of the call (usable when the SP has no
 // injected clock and reads real time)
-var c17TimelessOps = []int{12, 13, 14, 15, 16, 17, 18, 19, 20, 21, 24, 28, 29}
+var c17TimelessOps = []int{12, 13, 14, 15, 16, 17, 18, 19, 20, 21, 24, 28, 29, 30}
 
 func init() {
 	register(&Prop{
@@ -212,6 +214,12 @@ func c17Run(r *core.Run) {
 	m3.Sign = world.PlainSigOpts(o.IdPKey, o.IdPCert)
 	m3.Assertions[0].Encrypt = world.DrawEncOpts(t, &world.Key(o.EncKey).RSA.PublicKey, o.EncCert.DER)
 	env.msgs["encrypted"] = issue(m3)
+	m4 := world.GenResponse(t, o.IdP, fed, now, 1, false)
+	m4.Assertions[0].Sign = world.PlainSigOpts(o.IdPKey, o.IdPCert)
+	m4.Assertions[0].Sign.EmptyURI = false
+	m4.Assertions[0].Sign.ExclusiveOnly()
+	m4.Assertions[0].Encrypt = world.DrawEncOpts(t, &world.Key(o.EncKey).RSA.PublicKey, o.EncCert.DER)
+	env.msgs["encrypted-assertion-signed"] = issue(m4)
 	lr := world.GenLogout(t, o.IdP, fed, now, "LogoutRequest")
 	lr.Sign = world.PlainSigOpts(o.IdPKey, o.IdPCert)
 	env.msgs["logout-request"] = issue(lr)
@@ -584,7 +592,7 @@ func c17Do(sp *saml2.SAMLServiceProvider, op string, env *c17Env, scribble bool)
 		case "ValidateEncodedResponse":
 			resp, err := sp.ValidateEncodedResponse(env.msgs["response"])
 			digest = respDigest(resp, err, scribble)
-		case "RetrieveAssertionInfo", "RetrieveAssertionInfo(assertion-signed)", "RetrieveAssertionInfo(encrypted)", "RetrieveAssertionInfo(damaged)", "RetrieveAssertionInfo(compressed)", "RetrieveAssertionInfo(compressed2)":
+		case "RetrieveAssertionInfo", "RetrieveAssertionInfo(assertion-signed)", "RetrieveAssertionInfo(encrypted)", "RetrieveAssertionInfo(damaged)", "RetrieveAssertionInfo(compressed)", "RetrieveAssertionInfo(compressed2)", "RetrieveAssertionInfo(encrypted-assertion-signed)":
 			key := "response"
 			if i := strings.Index(op, "("); i > 0 {
 				key = op[i+1 : len(op)-1]
